@@ -31,27 +31,51 @@ using FTree = frg::rbtree<Node, &Node::hook, FlipLess>;
 __attribute__((noinline)) void scribble_stack() { volatile unsigned char buf[768]; for(size_t i = 0; i < sizeof buf; i++) buf[i] = 0xA5; }
 using Tree = frg::rbtree<Node, &Node::hook, KeyLess>;
 using OTree = frg::rbtree_order<Node, &Node::hook>;
-using color = frg::_redblack::color_type;
+
+// The colour of a node as the hook stores it today: 1 red, 2 black, 3 neither; 0 when the hook has no readable colour field (an
+// implementation may keep the colour elsewhere, e.g. in a low bit of the parent link). Without it the colouring clauses are decided
+// through their stated consequence, the height bound, and the fix-up classes are waived.
+template<typename H> int colour_of(H &h) {
+	if constexpr(requires { h.color; std::remove_cvref_t<decltype(h.color)>::red; std::remove_cvref_t<decltype(h.color)>::black; }) {
+		using CT = std::remove_cvref_t<decltype(h.color)>;
+		return h.color == CT::red ? 1 : h.color == CT::black ? 2 : 3;
+	} else return 0;
+}
+// the link fields a hook has today, looked up only if they exist (a hook may compute its list neighbours instead of storing them)
+template<typename H> bool raw_links_null(H &h) {
+	bool ok = true;
+	if constexpr(requires { h.parent; }) ok = ok && !h.parent;
+	if constexpr(requires { h.left; }) ok = ok && !h.left;
+	if constexpr(requires { h.right; }) ok = ok && !h.right;
+	if constexpr(requires { h.predecessor; }) ok = ok && !h.predecessor;
+	if constexpr(requires { h.successor; }) ok = ok && !h.successor;
+	return ok;
+}
 
 template<typename T>
 struct Checker {
 	Ctx &c; T &tree; std::vector<Node *> &ref;
 	std::vector<Node *> inorder;
+	bool colours = true;
 	int walk(Node *n, Node *parent, int depth, int &maxdepth) {   // returns black height
 		if(!n) return 1;
 		VCHECK(c, "C06", T::get_parent(n) == parent, "parent link of node #%d does not match the child link that leads to it", n->serial);
-		VCHECK(c, "C06", n->hook.color == color::red || n->hook.color == color::black, "node #%d in the tree has no colour", n->serial);
-		if(n->hook.color == color::red) {
-			Node *l = T::get_left(n), *r = T::get_right(n);
-			VCHECK(c, "C06", !(l && l->hook.color == color::red) && !(r && r->hook.color == color::red), "red node #%d has a red child", n->serial);
+		int col = colour_of(n->hook);
+		if(!col) { if(colours) c.tag("colour-not-readable"); colours = false; }
+		if(colours) {
+			VCHECK(c, "C06", col == 1 || col == 2, "node #%d in the tree has no colour", n->serial);
+			if(col == 1) {
+				Node *l = T::get_left(n), *r = T::get_right(n);
+				VCHECK(c, "C06", !(l && colour_of(l->hook) == 1) && !(r && colour_of(r->hook) == 1), "red node #%d has a red child", n->serial);
+			}
 		}
 		VCHECK(c, "C06", inorder.size() <= ref.size(), "the tree holds more nodes than the %zu contained (cycle?)", ref.size());
 		if(depth > maxdepth) maxdepth = depth;
 		int lh = walk(T::get_left(n), n, depth + 1, maxdepth);
 		inorder.push_back(n);
 		int rh = walk(T::get_right(n), n, depth + 1, maxdepth);
-		VCHECK(c, "C06", lh == rh, "black heights differ below node #%d (%d vs %d)", n->serial, lh, rh);
-		return lh + (n->hook.color == color::black ? 1 : 0);
+		if(colours) VCHECK(c, "C06", lh == rh, "black heights differ below node #%d (%d vs %d)", n->serial, lh, rh);
+		return lh + (col == 2 ? 1 : 0);
 	}
 	void check(const char *after) {
 		inorder.clear();
@@ -60,7 +84,7 @@ struct Checker {
 		int maxdepth = 0;
 		if(root) {
 			VCHECK(c, "C06", T::get_parent(root) == nullptr, "after %s: the root has a parent", after);
-			VCHECK(c, "C06", root->hook.color == color::black, "after %s: the root is not black", after);
+			if(colour_of(root->hook)) VCHECK(c, "C06", colour_of(root->hook) == 2, "after %s: the root is not black", after);
 			walk(root, nullptr, 1, maxdepth);
 		}
 		VCHECK(c, "C06", inorder.size() == ref.size(), "after %s: in-order walk over left/right visits %zu nodes, %zu are contained", after, inorder.size(), ref.size());
@@ -86,7 +110,8 @@ struct Checker {
 		}
 	}
 	void removed(Node *x) {
-		VCHECK(c, "C06", !x->hook.parent && !x->hook.left && !x->hook.right && !x->hook.predecessor && !x->hook.successor, "the hook of removed node #%d is not reset", x->serial);
+		// through the tree's public accessors, and through whichever of the five link fields the hook still stores
+		VCHECK(c, "C06", !T::get_parent(x) && !T::get_left(x) && !T::get_right(x) && !T::predecessor(x) && !T::successor(x) && raw_links_null(x->hook), "the hook of removed node #%d is not reset", x->serial);
 	}
 	// classify the removal fix-up that node x will need (from the state before the removal)
 	void classify_remove(Node *x) {
@@ -95,14 +120,15 @@ struct Checker {
 		if(l && r) { c.tag("rm-two-children"); victim = T::predecessor(x); }
 		Node *child = T::get_left(victim) ? T::get_left(victim) : T::get_right(victim);
 		if(victim == tree.get_root() && victim == x) c.tag("rm-root");
-		if(victim->hook.color == color::red) { c.tag("rm-red-victim"); return; }
-		if(child && child->hook.color == color::red) { c.tag("rm-black-victim-red-child"); return; }
+		if(!colours) return;
+		if(colour_of(victim->hook) == 1) { c.tag("rm-red-victim"); return; }
+		if(child && colour_of(child->hook) == 1) { c.tag("rm-black-victim-red-child"); return; }
 		Node *p = T::get_parent(victim);
 		if(!p) return;
 		bool left = T::get_left(p) == victim;
 		Node *s = left ? T::get_right(p) : T::get_left(p);
 		if(!s) return;
-		auto red = [](Node *n) { return n && n->hook.color == color::red; };
+		auto red = [](Node *n) { return n && colour_of(n->hook) == 1; };
 		const char *side = left ? "L" : "R";
 		if(red(s)) { c.tagf("fixrm-%s-sibling-red", side); return; }
 		Node *far = left ? T::get_right(s) : T::get_left(s), *near = left ? T::get_left(s) : T::get_right(s);
@@ -112,13 +138,14 @@ struct Checker {
 	}
 	void classify_insert(Node *parent_of_new, bool as_left) {
 		if(!parent_of_new) { c.tag("ins-root"); return; }
-		if(parent_of_new->hook.color == color::black) { c.tag("ins-parent-black"); return; }
+		if(!colours) return;
+		if(colour_of(parent_of_new->hook) == 2) { c.tag("ins-parent-black"); return; }
 		Node *g = T::get_parent(parent_of_new);
 		if(!g) return;
 		bool pl = T::get_left(g) == parent_of_new;
 		Node *u = pl ? T::get_right(g) : T::get_left(g);
 		const char *side = pl ? "L" : "R";
-		if(u && u->hook.color == color::red) c.tagf("fixins-%s-uncle-red", side);
+		if(u && colour_of(u->hook) == 1) c.tagf("fixins-%s-uncle-red", side);
 		else if(pl == as_left) c.tagf("fixins-%s-outer", side);
 		else c.tagf("fixins-%s-inner", side);
 	}
